@@ -161,6 +161,11 @@ def _serall(g, scale):
             g.emit("card %s" % y)
         g.emit("add %s %d" % (y, 12345))
         g.emit("wf %s" % y)
+        # the same bitmap through the frozen format (three writers, view)
+        g.emit("frz %s" % x)
+        v = g.fresh("v")
+        g.emit("fview %s %s" % (v, x))
+        g.emit("card %s" % v)
         g.count("serall:%d:%s" % (n, "run" if withrun else "norun"))
 
 
@@ -270,6 +275,14 @@ def mutate(g, data, conts):
     return bytes(b)
 
 
+def run_stream_early(key, runs):
+    hdr = struct.pack("<HH", 12347, 0) + bytes([1])
+    c = sum(l + 1 for _, l in runs)
+    desc = struct.pack("<HH", key, (c - 1) & 0xFFFF)
+    pay = struct.pack("<H", len(runs)) + b"".join(struct.pack("<HH", s_ & 0xFFFF, l & 0xFFFF) for s_, l in runs)
+    return hdr + desc + pay
+
+
 @suite("fuzzdec")
 def _fuzzdec(g, scale):
     """C10: mostly-valid streams, structurally corrupted; accepted+validated inputs get the query battery"""
@@ -304,6 +317,28 @@ def _fuzzdec(g, scale):
             g.emit("andnot %s %s %s" % (g.fresh(), y, z))
             g.emit("ixor %s %s" % (z, y))
             g.emit("wf %s" % z)
+    # valid streams into receivers that were used before and grew chunk by chunk (their internal slices have different spare
+    # capacities): container counts around the powers of two the slices grow by
+    for n0 in r.sample([40, 50, 100, 200, 400], 2 if scale < 2 else 5):
+        for cnt in r.sample([n0 + 1, 64, 65, 70, 71, 72, 128, 129, 140, 143, 144, 256, 257, 300, 303, 304, 512, 513, 590], 4):
+            y = g.fresh("u")
+            g.emit("new %s" % y)
+            g.emit("addstride %s %d 65536 %d" % (y, r.choice([0, 9]), n0))
+            if r.random() < 0.4:
+                g.emit("clear %s" % y)
+            conts = [(k, "A", [(v, v) for v in sorted(r.sample(range(65536), r.choice([1, 2, 5])))]) for k in sorted(r.sample(range(65536), cnt))]
+            e = r.choice(["readfrom", "frombuffer", "fromunsafe", "unmarshal", "base64", "readfromck"])
+            g.emit("dec %s %s %s reuse" % (y, e, enc_stream(conts).hex()))
+            g.emit("card %s" % y)
+            g.emit("wf %s" % y)
+            g.count("dec:reused-grown-receiver")
+    # wrapping runs that are not the last run of their container
+    for runs in ([(60000, 10000), (65000, 10)], [(65530, 10), (65534, 1)], [(10, 5), (65000, 600), (65100, 2)], [(65535, 1), (3, 1)]):
+        y = g.fresh()
+        g.emit("dec %s %s %s" % (y, r.choice(["frombuffer", "readfrom", "fromunsafe", "unmarshal"]), run_stream_early(r.choice([0, 5, 65535]), runs).hex()))
+        g.emit("card %s" % y)
+        g.emit("toarr %s" % y)
+        g.count("dec:wrapping-interior-run")
     # systematic structured-but-illegal (and barely legal) run / array / key layouts
     def run_stream(key, runs, cardfield=None):
         hdr = struct.pack("<HH", 12347, 0) + bytes([1])
